@@ -181,6 +181,7 @@ func (f *Func) redefineInputs(opts ...Arg) (reflect.Type, error) {
 		Type:      structMarkerType,
 		Anonymous: true,
 	})
+	names := map[string]struct{}{}
 	for k, v := range state.InputSet {
 		log.Trace("input", "value", v)
 		if _, ok := inputsProvided[k]; ok {
@@ -189,6 +190,15 @@ func (f *Func) redefineInputs(opts ...Arg) (reflect.Type, error) {
 
 		switch v := v.(type) {
 		case *valueVertex:
+			// The struct we build identifies named inputs by their name
+			// only, so the same name with two different types (or
+			// subtypes) cannot be represented.
+			if _, ok := names[v.Name]; ok {
+				return nil, fmt.Errorf(
+					"can't redefine: multiple different inputs named %q are required", v.Name)
+			}
+			names[v.Name] = struct{}{}
+
 			sf = append(sf, reflect.StructField{
 				Name: strings.ToUpper(v.Name),
 				Type: v.Type,
